@@ -8,5 +8,6 @@ pub mod rng;
 pub mod gen;
 pub mod gen_lat;
 pub mod gen_mac;
+pub mod gen_ds;
 pub mod xform;
 pub mod meta;
